@@ -204,7 +204,7 @@ func runC01(c *report.Ctx) {
 	ruleClassGate(c)
 
 	// ---- schema (shared with C09) -------------------------------------------------
-	ruleSchema(c, []string{"nsUnspent", "nsCredits", "nsDebits", "nsMinedBalance", "nsTxRecords", "nsBlocks", "nsUnmined", "nsUnminedInputs", "nsUnminedCredits", "nsAddresses", "nsGameHistory", "nsUnminedGameHistory"})
+	ruleSchema(c, []string{"nsUnspent", "nsCredits", "nsDebits", "nsMinedBalance", "nsTxRecords", "nsBlocks", "nsUnmined", "nsUnminedInputs", "nsUnminedCredits", "nsAddresses", "nsGameHistory", "nsUnminedGameHistory"}, 40, 20)
 }
 
 func phiHasAppend(ph *ssa.Phi, depth int) bool {
